@@ -198,8 +198,9 @@ var baseSegs = []string{"a", "b", "7", "ab", "x.js", "a.js", "a:go", "7:go", "",
 var jsrTokens = []string{"a", "b", "{x}", "{y}", "{n:[0-9]+}", "{w:[a-z]}", "{t:*}"}
 var jsrSegs = []string{"a", "b", "7", "ab", "x.js", ""}
 
-// PathUniverse returns the universe of the path sweep for a router and tier; small selects the
-// halved alphabets used for multi-route tables.
+// PathUniverse returns the universe of a path sweep for a router and tier. small selects the
+// halved alphabets used for multi-route tables. Sizes are chosen so that a quick check stays
+// around a minute and a thorough one around 10-20 minutes on 16 cores.
 func PathUniverse(r rm.Router, tier string, small bool) Universe {
 	u := Universe{RMethods: []string{"GET", "POST"}, QMethods: []string{"GET", "POST", "PUT"}}
 	if r == rm.Curly {
@@ -208,23 +209,24 @@ func PathUniverse(r rm.Router, tier string, small bool) Universe {
 		u.Tokens, u.Roots, u.Segs = jsrTokens, baseRoots, jsrSegs
 	}
 	u.MaxSub, u.MaxPath = 2, 3
+	thorough := tier == "thorough"
 	if small {
+		u.MaxSub = 1
 		if r == rm.Curly {
-			u.Tokens = []string{"a", "{x}", "{n:[0-9]+}", "{s}.js", "{t:*}", "a:go", "b"}
+			u.Tokens = []string{"a", "{x}", "{n:[0-9]+}", "{s}.js", "{t:*}", "a:go", "b", "{x}:go", "pre_{p}", "{w:[a-z]}"}
 			u.Segs = []string{"a", "b", "7", "x.js", "a:go", ""}
 		} else {
 			u.Tokens = []string{"a", "{x}", "{n:[0-9]+}", "{t:*}", "b"}
 			u.Segs = []string{"a", "b", "7", ""}
 		}
-		u.QMethods = []string{"GET", "POST", "PUT"}
-		if tier != "thorough" {
-			u.MaxSub = 1
-			if r == rm.Curly {
-				u.Tokens = append(append([]string{}, u.Tokens...), "{x}:go", "pre_{p}", "{w:[a-z]}")
-			}
+		if thorough {
+			u.Roots = append(append([]string{}, u.Roots...), "/{r:[0-9]+}", "/b")
+			u.Segs = append(append([]string{}, u.Segs...), "pre_z", "ab", "42")
+			u.QMethods = []string{"GET", "POST", "PUT", "DELETE"}
 		}
+		return u
 	}
-	if tier == "thorough" {
+	if thorough {
 		if r == rm.Curly {
 			u.Tokens = append(append([]string{}, u.Tokens...), "pre_{p}.js", "{n:[0-9]}", "b:run")
 			u.Roots = append(append([]string{}, u.Roots...), "/{r:[0-9]+}", "/{q:[a-z]+}", "/a/", "/a/{r}/c", "/b")
@@ -235,11 +237,34 @@ func PathUniverse(r rm.Router, tier string, small bool) Universe {
 			u.Roots = append(append([]string{}, u.Roots...), "/{r:[0-9]+}", "/a/", "/a/{r}/c", "/b")
 			u.Segs = append(append([]string{}, u.Segs...), "42", "é", strings.Repeat("z", 300), "a/b")
 		}
-		u.QMethods = append(append([]string{}, u.QMethods...), "PATCH", "OPTIONS", "HEAD")
-		if !small {
-			u.MaxSub = 3
-			u.MaxPath = 4
-		}
+		u.QMethods = []string{"GET", "POST", "PUT", "DELETE", "OPTIONS"}
+	}
+	return u
+}
+
+// DeepUniverse: longer templates and paths (3-token sub-paths, 4-segment paths) over a reduced
+// alphabet; thorough tier only.
+func DeepUniverse(r rm.Router) Universe {
+	u := Universe{RMethods: []string{"GET", "POST"}, QMethods: []string{"GET", "POST", "PUT"}, MaxSub: 3, MaxPath: 4, Roots: baseRoots}
+	if r == rm.Curly {
+		u.Tokens = []string{"a", "{x}", "{n:[0-9]+}", "{s}.js", "{t:*}", "a:go", "b"}
+		u.Segs = []string{"a", "b", "7", "x.js", "a:go", ""}
+	} else {
+		u.Tokens = []string{"a", "{x}", "{n:[0-9]+}", "{t:*}", "b"}
+		u.Segs = []string{"a", "b", "7", ""}
+	}
+	return u
+}
+
+// DeepPairUniverse: 2-token sub-paths for two-route tables over a further reduced alphabet.
+func DeepPairUniverse(r rm.Router) Universe {
+	u := Universe{RMethods: []string{"GET", "POST"}, QMethods: []string{"GET", "POST", "PUT"}, MaxSub: 2, MaxPath: 3, Roots: []string{"/", "/a", "/{r}", "/a/{r}"}}
+	if r == rm.Curly {
+		u.Tokens = []string{"a", "{x}", "{n:[0-9]+}", "{s}.js", "{t:*}"}
+		u.Segs = []string{"a", "b", "7", "x.js", ""}
+	} else {
+		u.Tokens = []string{"a", "{x}", "{n:[0-9]+}", "{t:*}"}
+		u.Segs = []string{"a", "b", "7", ""}
 	}
 	return u
 }
